@@ -1,4 +1,5 @@
 import Bclv.Proofs.DumpLoad
+import Bclv.Proofs.Bufio
 /-!
 # C13 — truncated bytecode is rejected with an error
 -/
@@ -17,6 +18,13 @@ theorem load_prefix_rejected (p : Prog) (h : p.WF) (k : Nat) (hk : k < (dump p).
     omega
   obtain ⟨m, hm⟩ := (Enc_pProg p h).2 _ _ hsplit hne
   exact ⟨m, by unfold load; rw [hm]⟩
+
+/-- The same through the buffered reader, whatever non-empty pieces the interrupted file is
+read in. -/
+theorem load_prefix_rejected_chunked (p : Prog) (h : p.WF) (chunks : List Bytes) (hc : ∀ c ∈ chunks, c ≠ [])
+    (k : Nat) (hk : k < (dump p).length) (hcat : chunks.flatten = (dump p).take k) :
+    ∃ m, loadR chunks = .err m := by
+  rw [loadR_eq_load chunks hc, hcat]; exact load_prefix_rejected p h k hk
 
 theorem bind_fail {α β} {p : P α} {f : α → P β} {bs : Bytes} {m : String} (h : p bs = .fail m) :
     (p >>= f) bs = .fail m := by
